@@ -64,38 +64,60 @@ def LV.scratch : LV → Bool
   | .i | .isTarget | .nds | .x1 | .y1 | .x2 | .y2 | .dist | .distSqr | .last | .tr => true
   | _ => false
 
-/-- what one pixel leaves unchanged -/
-structure PixFrame (N : Names) (s r : State F) : Prop where
+/-- the scalars the sweep loop assigns: the pixel's and the loop variable -/
+def LV.sweepScratch (a : LV) : Bool := a.scratch || a == .pixel
+
+/-- the scalars `_process_proximity_line` assigns -/
+def LV.lineScratch (a : LV) : Bool :=
+  a.sweepScratch || a == .start || a == .end_ || a == .step || a == .nValues
+
+/-- what a piece of the line sweep leaves unchanged: shapes, `_distance`, every scalar outside `S`, every
+    array but the five it writes -/
+structure FrameS (S : LV → Bool) (N : Names) (s r : State F) : Prop where
   shp : r.shp = s.shp
   ext : r.ext = s.ext
-  ienv : ∀ v, (∀ a : LV, a.scratch = true → v ≠ N.nm a) → r.ienv v = s.ienv v
-  fenv : ∀ v, (∀ a : LV, a.scratch = true → v ≠ N.nm a) → r.fenv v = s.fenv v
-  benv : ∀ v, (∀ a : LV, a.scratch = true → v ≠ N.nm a) → r.benv v = s.benv v
+  ienv : ∀ v, (∀ a : LV, S a = true → v ≠ N.nm a) → r.ienv v = s.ienv v
+  fenv : ∀ v, (∀ a : LV, S a = true → v ≠ N.nm a) → r.fenv v = s.fenv v
+  benv : ∀ v, (∀ a : LV, S a = true → v ≠ N.nm a) → r.benv v = s.benv v
   ia : ∀ a, a ≠ "pan_near_x" → a ≠ "pan_near_y" → a ≠ "nearest_xs" → a ≠ "nearest_ys" → r.ia a = s.ia a
   fa : ∀ a, a ≠ "line_proximity" → r.fa a = s.fa a
 
-theorem PixFrame.refl (N : Names) (s : State F) : PixFrame N s s :=
+/-- what one pixel leaves unchanged -/
+abbrev PixFrame (N : Names) (s r : State F) : Prop := FrameS LV.scratch N s r
+
+theorem FrameS.refl (S : LV → Bool) (N : Names) (s : State F) : FrameS S N s s :=
   ⟨rfl, rfl, fun _ _ => rfl, fun _ _ => rfl, fun _ _ => rfl, fun _ _ _ _ _ => rfl, fun _ _ => rfl⟩
 
-theorem PixFrame.trans {N : Names} {s r t : State F} (h1 : PixFrame N s r) (h2 : PixFrame N r t) : PixFrame N s t :=
+theorem FrameS.trans {S : LV → Bool} {N : Names} {s r t : State F} (h1 : FrameS S N s r) (h2 : FrameS S N r t) :
+    FrameS S N s t :=
   ⟨h2.shp.trans h1.shp, h2.ext.trans h1.ext,
    fun v hv => (h2.ienv v hv).trans (h1.ienv v hv), fun v hv => (h2.fenv v hv).trans (h1.fenv v hv),
    fun v hv => (h2.benv v hv).trans (h1.benv v hv),
    fun a h1' h2' h3' h4' => (h2.ia a h1' h2' h3' h4').trans (h1.ia a h1' h2' h3' h4'),
    fun a ha => (h2.fa a ha).trans (h1.fa a ha)⟩
 
-theorem nm_ne_scratch {N : Names} (hN : N.WF) (b : LV) (hb : b.scratch = false) :
-    ∀ a : LV, a.scratch = true → N.nm b ≠ N.nm a := by
+theorem FrameS.mono {S S' : LV → Bool} {N : Names} {s r : State F} (h : FrameS S N s r)
+    (hS : ∀ a, S a = true → S' a = true) : FrameS S' N s r :=
+  ⟨h.shp, h.ext, fun v hv => h.ienv v (fun a ha => hv a (hS a ha)), fun v hv => h.fenv v (fun a ha => hv a (hS a ha)),
+   fun v hv => h.benv v (fun a ha => hv a (hS a ha)), h.ia, h.fa⟩
+
+theorem PixFrame.refl (N : Names) (s : State F) : PixFrame N s s := FrameS.refl _ N s
+
+theorem nm_ne_scratch {S : LV → Bool} {N : Names} (hN : N.WF) (b : LV) (hb : S b = false) :
+    ∀ a : LV, S a = true → N.nm b ≠ N.nm a := by
   intro a ha e
   have := hN.inj _ _ e
   subst this
   rw [hb] at ha; cases ha
 
-theorem PixFrame.keepI {N : Names} {s r : State F} (hN : N.WF) (f : PixFrame N s r) (b : LV) (hb : b.scratch = false) :
+theorem FrameS.keepI {S : LV → Bool} {N : Names} {s r : State F} (hN : N.WF) (f : FrameS S N s r) (b : LV) (hb : S b = false) :
     r.ienv (N.nm b) = s.ienv (N.nm b) := f.ienv _ (nm_ne_scratch hN b hb)
 
-theorem PixFrame.keepF {N : Names} {s r : State F} (hN : N.WF) (f : PixFrame N s r) (b : LV) (hb : b.scratch = false) :
+theorem FrameS.keepF {S : LV → Bool} {N : Names} {s r : State F} (hN : N.WF) (f : FrameS S N s r) (b : LV) (hb : S b = false) :
     r.fenv (N.nm b) = s.fenv (N.nm b) := f.fenv _ (nm_ne_scratch hN b hb)
+
+theorem FrameS.keepB {S : LV → Bool} {N : Names} {s r : State F} (hN : N.WF) (f : FrameS S N s r) (b : LV) (hb : S b = false) :
+    r.benv (N.nm b) = s.benv (N.nm b) := f.benv _ (nm_ne_scratch hN b hb)
 
 /-! projections of the explicit states -/
 section proj
@@ -177,7 +199,7 @@ structure SweepEnv (N : Names) (c : Cfg) (emb : Nat → F) (tg : Nat → Nat →
   tgt : ∀ p, p < c.W → targetTest ((s.fa N.src).getD p Fl.nan) (s.fa N.vals) = tg row p
 
 theorem SweepEnv.of_frame {N : Names} {c : Cfg} {emb : Nat → F} {tg : Nat → Nat → Bool} {row : Nat} {fwd : Bool}
-    {s r : State F} (hN : N.WF) (h : SweepEnv N c emb tg row fwd s) (f : PixFrame N s r) :
+    {s r : State F} (hN : N.WF) (h : SweepEnv N c emb tg row fwd s) (f : FrameS LV.sweepScratch N s r) :
     SweepEnv N c emb tg row fwd r := by
   have e1 : r.fa N.vals = s.fa N.vals := f.fa _ hN.vals_ne
   have e2 : r.fa N.src = s.fa N.src := f.fa _ hN.src_ne
@@ -210,5 +232,15 @@ structure LineRel (c : Cfg) (emb : Nat → F) (s : State F) (m : LineSt) : Prop 
   pan : ∀ q, q < c.W → tgtRel c.H c.W ((s.ia "pan_near_x").getD q 0) ((s.ia "pan_near_y").getD q 0) (m.pan.getD q none)
   nr : ∀ q, q < c.W → tgtRel c.H c.W ((s.ia "nearest_xs").getD q 0) ((s.ia "nearest_ys").getD q 0) (m.nr.getD q none)
   lp : ∀ q, q < c.W → lpRel emb ((s.fa "line_proximity").getD q Fl.nan) (m.lp.getD q none)
+
+theorem SweepEnv.of_pix {N : Names} {c : Cfg} {emb : Nat → F} {tg : Nat → Nat → Bool} {row : Nat} {fwd : Bool}
+    {s r : State F} (hN : N.WF) (h : SweepEnv N c emb tg row fwd s) (f : PixFrame N s r) :
+    SweepEnv N c emb tg row fwd r :=
+  h.of_frame hN (f.mono (fun a ha => by simp [LV.sweepScratch, ha]))
+
+theorem LineRel.congr {c : Cfg} {emb : Nat → F} {s r : State F} {m : LineSt} (h : LineRel c emb s m)
+    (e1 : r.ia = s.ia) (e2 : r.fa = s.fa) : LineRel c emb r m :=
+  ⟨e1 ▸ h.len_px, e1 ▸ h.len_py, e1 ▸ h.len_nx, e1 ▸ h.len_ny, e2 ▸ h.len_lp, h.mlen_pan, h.mlen_lp, h.mlen_nr,
+   e1 ▸ h.pan, e1 ▸ h.nr, e2 ▸ h.lp⟩
 
 end XrsVerif.IL
